@@ -46,6 +46,8 @@ def run(ctx, replay=None):
         for variant in ("on_then_off", "data_removed"):
             ev, info = D.persist_diffusion(c, True, variant)
             traces.append(ev); infos.append(info); labels.append("persist-diffusion-%d-%s" % (i, variant))
+    ev, info = D.persist_strength(dict(tag="persist-strength", phases=[ph], D=1e-16, calls=[(20.0, 0.02), (20.0, 0.02)], cap=300))
+    traces.append(ev); infos.append(info); labels.append("persist-strength")
     reached, res = T.validate("Equiv", [], traces, "c20_equiv")
     ctx.add_tlc(res, "Equiv over %d save/load pairs" % len(traces))
     if res.violated or reached is None:
